@@ -217,6 +217,10 @@ def run(ctx):
         else:
             r.bad("spawn-first", "the printer thread is not started before the walk", fn=fp)
 
+    from . import c14
+    with ctx.rule("C08.PERFILE", "per-file searcher state is re-installed for every haystack (no leak between files of one worker; shared with C14.MODE)",
+                  floor=2, kind="DOM/GUARD") as r:
+        c14.perfile_rule(ctx, r)
     with ctx.rule("C08.STATUS", "parallel results derive from the shared matched flag", floor=2, kind="FLOW") as r:
         for name in ("rg::search_parallel", "rg::files_parallel"):
             f = facts.fn(name)
